@@ -162,7 +162,14 @@ def check_config(prop, name, cfg):
                 fails.append(fw.fail(f"{name}/analyzer/{tag}/{rg}",
                                      f"analyzer plan {name} ({cfgkey(cfg)}): {msg}", case))
             # the analyzer must hand the configured parameters to the scheduler unchanged
-            diff = [k for k in ("f", "r", "b", "L", "K", "navg", "O") if not np.array_equal(np.asarray(aplan[k]), np.asarray(plan[k]))]
+            def _same(k):
+                a_, b_ = np.asarray(aplan[k]), np.asarray(plan[k])
+                if a_.shape != b_.shape:
+                    return False
+                if k in ("L", "K", "navg"):
+                    return bool(np.array_equal(a_, b_))
+                return bool(np.allclose(a_.astype(float), b_.astype(float), rtol=1e-12, atol=1e-15))
+            diff = [k for k in ("f", "r", "b", "L", "K", "navg", "O") if not _same(k)]
             if len(aplan["D"]) != len(plan["D"]) or any(not np.array_equal(np.asarray(a), np.asarray(b)) for a, b in zip(aplan["D"], plan["D"])):
                 diff.append("D")
             if diff:
